@@ -2,13 +2,14 @@
 import json
 import os
 import random
+import re
 import subprocess
 
 import lib
 
 MANIFEST = {
  "category": "proof",
- "text": "Coq theorems C15_equiv_sound / C15_equiv_complete: for ALL pairs of compiled programs (any size, any nesting of pipelines, no bound) the model of Ast.EquivalentCall (K/Equiv.v: CallStm/Pipeline/Stage.EquivalentTo, BindStms.Equals, Modifiers.EquivalentTo, In/OutParams.Equals, Exp.equal incl. an exact model of the float64 tolerance arithmetic) accepts the pair iff their normal forms have the same content, where norm erases exactly formatting/comments/include structure (not in the Ast), file-type names, the callable name behind an alias, volatile/help/src/resources/retain, and keeps call names, argument values, parameter names and types, split flag, return bindings, local/preflight and the disabled binding. C15_lock_exclusion: in every interleaving of lock events, an instance whose check follows another instance's lock write is refused and never holds the pipestance; read-only attach is always admitted. The model is tied to /repo on every run: modifier name, wildcard id and the tolerance literal are regenerated from the Go AST; EquivalentCall (both directions) is compared with the model on Asts dumped from martian's own compiler for generated program pairs (original, one edit from a catalogue of ~60 cosmetic/semantic/unclassified edits at a random site of the transitive closure) and Exp.equal on thousands of literal pairs dense around the tolerance and 2^53; a kernel vm_compute sample; and the property is read directly on the implementation (cosmetic edit accepted, semantic edit refused). Thorough: real mrp start/attach sequences (edited library, second instance against a live lock, --inspect).",
+ "text": "Coq theorems C15_equiv_sound / C15_equiv_complete: for ALL pairs of compiled programs (any size, any nesting of pipelines, no bound) the model of Ast.EquivalentCall (K/Equiv.v: CallStm/Pipeline/Stage.EquivalentTo, BindStms.Equals, Modifiers.EquivalentTo, In/OutParams.Equals, Exp.equal incl. an exact model of the float64 tolerance arithmetic) accepts the pair iff their normal forms have the same content, where norm erases exactly formatting/comments/include structure (not in the Ast), file-type names, the callable name behind an alias, volatile/help/src/resources/retain, and keeps call names, argument values, parameter names and types, split flag, return bindings, local/preflight and the disabled binding. C15_lock_exclusion: in every interleaving of lock events, an instance whose check follows another instance's lock write is refused and never holds the pipestance; read-only attach is always admitted. The model is tied to /repo on every run: modifier name, wildcard id and the tolerance literal are regenerated from the Go AST; EquivalentCall (both directions) is compared with the model on Asts dumped from martian's own compiler for generated program pairs (original, one edit from a catalogue of ~60 cosmetic/semantic/unclassified edits at a random site of the transitive closure) and Exp.equal on thousands of literal pairs dense around the tolerance and 2^53; a kernel vm_compute sample; and the property is read directly on the implementation (cosmetic edit accepted, semantic edit refused). When implementation and model disagree on a case, a property-level failing input is searched: complete program pairs are built from the disagreeing cases (a literal becomes a stage argument in a library pipeline) and the property is decided on the implementation alone (meaning = martian's resolved call graph, decision = EquivalentCall as called by reattachToPipestance). Thorough: real mrp start/attach sequences (edited library, second instance against a live lock, --inspect).",
  "note": "Trusted: Coq kernel; extraction cross-checked in-kernel on a sample; extractconsts; astdump (walks exported fields of syntax.Ast). Hypotheses wf_ast (distinct names, bindings cover the callee's parameters - evaluated on every dumped Ast) and existence of the normal form (evaluated on every pair). Guards, each a recorded known finding with a refutation theorem: float literals within the 1e-15 relative tolerance compare equal (C15_float_tolerance_refuted); struct types are compared by name only (C15_struct_member_refuted). Not modelled: the byte comparison of the invocation file with _invocation that precedes the Ast comparison (exercised end to end; it refuses even a reformatted invocation file), the TOCTOU window between lock check and lock write (C15_lock_toctou, outside the statement), MergeExp/DisabledExp/RefExp.Forks (do not occur in a compiled Ast).",
  "technique": "Coq proof (induction on fuel over the call tree, nested induction on expressions, pigeonhole on duplicate-free name lists) + differential correspondence on compiler-dumped Asts + edit-catalogue oracle",
 }
@@ -55,12 +56,14 @@ def check(ctx, args):
     # -- correspondence, volume: extracted model on the dumped Asts
     if okc:
         ctx.model_run("c15", cases, model)
-        n, mism = lib.diff_lines(impl, model, cases, same)
+        n, mism = lib.diff_lines(impl, model, cases, same, limit=600)
         def brief(m):
             f = m[1].split(" ")
             return "%s impl=%s model=%s" % (" ".join(f[:3]) if f[0] == "p" else " ".join(f[:3]), m[2][:20], m[3][:40])
         ctx.oblige("correspondence: Ast.EquivalentCall / Exp.equal (both directions) == K.Equiv.equiv_call / exp_equal on %d cases (extracted model on compiler-dumped Asts)" % n,
                    not mism, "; ".join(brief(m) for m in mism[:6] if m))
+        if mism:
+            search(ctx, [m for m in mism if m])
         model_lines = open(model).read().splitlines()
         bad_wf = [i for i, (c, m) in enumerate(zip(case_lines, model_lines))
                   if c.startswith("p ") and not m.endswith("wf=TT cache=TT fuel=TTT")]
@@ -115,6 +118,64 @@ def check(ctx, args):
     ctx.samples = [" ".join(c.split(" ")[:3]) for c in case_lines if c.startswith("p ")][:6] + \
                   [" ".join(bytes.fromhex(x).decode() for x in c.split(" ")[1:3]) for c in case_lines if c.startswith("e ")][200:204]
     return ctx.finish("proof")
+
+
+def lit_kind(hexlit):
+    t = bytes.fromhex(hexlit).decode(errors="replace") if hexlit != "-" else ""
+    if re.fullmatch(r"-?\d+", t):
+        return "int"
+    if re.fullmatch(r"-?[\d.]+([eE][+-]?\d+)?", t):
+        return "float"
+    return t[:1] or "empty"
+
+
+def search(ctx, mism):
+    """The implementation and the model disagree on some correspondence cases:
+    look for a PROPERTY-LEVEL failing input.  For a diverse sample of those
+    cases `vh c15 search` builds a pair of complete programs (the two program
+    texts of an Ast pair; for a literal pair an invocation whose library
+    pipeline binds the literal to a stage parameter), and decides the property
+    on the implementation alone: the meaning (resolved call graph built by
+    martian: node ids, resolved argument values, disabled expressions,
+    split/local/preflight, parameter types) changed yet
+    newAst.EquivalentCall(oldAst) - the call reattachToPipestance makes -
+    accepts, or the meaning is the same yet it refuses."""
+    groups = {}
+    for idx, case, a, b in mism:
+        f = case.split(" ")
+        ia, ib = (a.split() + ["?", "?"])[:2], (b.split() + ["?", "?"])[:2]
+        if "?" in ia + ib:
+            continue
+        if f[0] == "p":
+            key = ("p", f[2], tuple(ia), tuple(ib))
+        elif f[0] == "e":
+            key = ("e", lit_kind(f[1]), lit_kind(f[2]), tuple(ia), tuple(ib))
+        else:
+            continue
+        groups.setdefault(key, []).append("%s %s %s %s %s" % (ia[0], ia[1], ib[0], ib[1], case))
+    picked = []
+    for key in sorted(groups):
+        picked += groups[key][:3]
+    picked = picked[:90]
+    if not picked:
+        return
+    inp = os.path.join(ctx.scratch, "search_in.txt")
+    with open(inp, "w") as f:
+        f.write("\n".join(picked) + "\n")
+    q = ctx.vh_run(["c15", "search"], stdin_path=inp, timeout=900)
+    nfound = 0
+    for l in q.stdout.decode(errors="replace").splitlines():
+        if not l.startswith("FOUND "):
+            continue
+        _, cls, hx = l.split(" ", 2)
+        rep = json.loads(bytes.fromhex(hx).decode())
+        nfound += 1
+        detail = "%s; meaning changed: %s" % (rep.get("decision", ""), rep.get("meaning_changed"))
+        if "literal_original" in rep:
+            detail += "; argument %s -> %s (parameter type %s)" % (rep["literal_original"], rep["literal_edited"], rep["parameter_type"])
+        ctx.fail(cls, detail[:400], rep)
+    ctx.coverage["property_search"] = {"disagreeing_cases": len(mism), "groups": len(groups),
+                                       "pairs_built_from": len(picked), "failing_inputs_found": nfound}
 
 
 def e2e(ctx):
